@@ -1,9 +1,15 @@
 (* C17 - inferred runtime prop types accept every value of the declared TS type. Statements only.
    `validation never rejects an inhabitant` is decided on real outputs against the generator's
    table of value kinds and a model of Vue's assertType (tools/props.py); the theorems tie the
-   model's type tables to the source and give the composition laws. *)
+   model's type tables to the source, give the composition laws and - C17_accepts_every_inhabitant -
+   compose them over a grammar of types of any depth and width (Lemmas/InhabProofs.v: atoms of the
+   property's table, object types, interfaces, unions, parentheses, optional wrappers, alias chains,
+   NonNullable): the list the resolver computes accepts, under Vue's assertType, every value kind
+   that inhabits the type.  [inh] and [accepts] are this framework's reading of the property's table
+   and of runtime-core's validateProp; `any` / `unknown` beside other union members is excluded
+   ([anyfree]) and refuted with the witness of the known finding union_with_any. *)
 From VJ Require Import Model.Str Model.Json Model.Ast Model.State Model.Util Model.Types Lemmas.TypesProofs.
-From VJ Require Import Gen.Tables.
+From VJ Require Import Gen.Tables Lemmas.InhabProofs.
 
 (* the keyword table and the built-in name table of the model are the ones regenerated from
    resolve_type.rs on this run *)
@@ -37,3 +43,42 @@ Print Assumptions C17_union_alias_paren.
 Theorem C17_order_kept : forall (l xs : list (option str)), exists rest, oset_extend l xs = l ++ rest.
 Proof. exact oset_extend_keeps_order. Qed.
 Print Assumptions C17_order_kept.
+
+(* FULL STATEMENT on the grammar [InhabProofs.ty]: for every type t of the grammar whose references
+   are bound in the registry as written ([wf]: alias names to the encoding of their bodies,
+   interface names to non-empty member lists, built-in names undeclared in the file) and which has
+   no `any` / `unknown` inside ([anyfree]), and for every value kind k that inhabits t, the resolver
+   - given fuel at least the nesting depth - returns a list cs without touching the state (no
+   diagnostic, no panic flag) and Vue's check of `type: cs` accepts k. *)
+Theorem C17_accepts_every_inhabitant : forall E s t k,
+  wf s t -> anyfree t = true -> inh t k = true ->
+  exists cs, irt E (depth t) (enc_ty t) s = (cs, s) /\ accepts cs k = true.
+Proof. exact accepts_every_inhabitant. Qed.
+Print Assumptions C17_accepts_every_inhabitant.
+
+(* the same with any larger fuel (the code runs on the stack, the model on type_fuel = 200) *)
+Theorem C17_accepts_with_any_fuel : forall E s t fuel,
+  (depth t <= fuel)%nat -> wf s t -> anyfree t = true ->
+  exists cs, irt E fuel (enc_ty t) s = (cs, s) /\ forall k, inh t k = true -> accepts cs k = true.
+Proof.
+  intros E s t fuel Hd Hw Ha. destruct (irt_sound E s t fuel Hd Hw Ha) as [cs [Hcs Hk]].
+  exists cs. split; [exact Hcs|]. intros k Hi. apply strong_accepts. apply Hk. exact Hi.
+Qed.
+Print Assumptions C17_accepts_with_any_fuel.
+
+(* `any` alone is no check at all; beside another member it is the known finding union_with_any:
+   `string | any` admits a number, the emitted [String, null] rejects it *)
+Theorem C17_union_with_any_refuted :
+  (forall E s u f k, accepts (fst (irt E (S f) (enc_ty (TAny u)) s)) k = true)
+  /\ inh any_witness KNum = true
+  /\ accepts (fst (irt E_dummy 5 (enc_ty any_witness) st0)) KNum = false.
+Proof. split; [exact any_alone|exact union_with_any_refuted]. Qed.
+Print Assumptions C17_union_with_any_refuted.
+
+(* non-vacuity: a nested union (parentheses, NonNullable, a class, an array, an object type) meets
+   the hypotheses and has inhabitants *)
+Theorem C17_hypotheses_satisfiable :
+  wf st0 inhab_example /\ anyfree inhab_example = true
+  /\ inh inhab_example (KInst (s_ "Date")) = true /\ inh inhab_example KNull = true.
+Proof. exact inhab_example_ok. Qed.
+Print Assumptions C17_hypotheses_satisfiable.
